@@ -7,7 +7,7 @@ OUT = "/verif/seeded"
 rows = []
 for m in sorted(glob.glob("/tmp/mut/*C??/MUTANT/[0-9]")):
     dn = m.split("/")[3]; prop = dn[-3:]; n = m.split("/")[5]
-    tag = "%s-%s%s" % (prop, {"": "", "r2": "b", "r3": "c", "r4": "d", "r5": "e"}[dn[:-3]], n)
+    tag = "%s-%s%s" % (prop, {"": "", "r2": "b", "r3": "c", "r4": "d", "r5": "e", "r6": "f"}[dn[:-3]], n)
     ev = json.load(open(os.path.join(m, "eval.json"))) if os.path.exists(os.path.join(m, "eval.json")) else {}
     fin = json.load(open(os.path.join(m, "final.json"))) if os.path.exists(os.path.join(m, "final.json")) else {}
     if not os.path.exists(os.path.join(m, "meta.json")) or not os.path.exists(os.path.join(m, "patch.diff")):
